@@ -26,7 +26,9 @@ let () =
                decoded as UTF-8 whatever the label says (a document that declares something else there contradicts itself) *)
             let bom = (match bytes with a :: b :: c :: _ -> int_of_n a = 239 && int_of_n b = 187 && int_of_n c = 191 | _ -> false) in
             let code = if bom then 65533 else try Stdlib.List.assoc label table with Not_found -> 65533 in
-            print_endline (case ^ " ENC " ^ string_of_int code))
+            (* the lone byte 0xE9 is not legal UTF-8: where the label (or the byte order mark, or an unknown label's fallback)
+               means UTF-8 the document is rejected *)
+            print_endline (case ^ " ENC " ^ (if code = 65533 then "rejected" else string_of_int code)))
        | [_cls; mode; srclen] ->
          let ts = tokens_of (String.trim toks) in
          let r = if mode = "frag" then Builder.parse_fragment b t0 (n_of_int 0) ts
